@@ -1173,7 +1173,7 @@ def gate_stream(ctx, cirq, n):
         ctx.count('gate_unitary', [gs.fam, rep['params'], rep['entries']], symbolic and any(len(getattr(e, 'args', ())) > 0 for e in exprs),
                   sample=dict(gate=repr(sg), resolver=str(dict(entries)), numeric=repr(ng)))
         names_want = set().union(*[{s.name for s in e.free_symbols} for e in exprs if isinstance(e, sympy.Basic)]) if exprs else set()
-        if symbolic and (set(cirq.parameter_names(sg)) != names_want or not cirq.is_parameterized(sg)):
+        if symbolic and (set(cirq.parameter_names(sg)) != names_want or (names_want and not cirq.is_parameterized(sg))):
             ctx.violation(f'parameter_names:{gs.fam}', f'parameter_names({sg!r}) = {sorted(cirq.parameter_names(sg))}, its parameters mention {sorted(names_want)}; '
                           f'is_parameterized = {cirq.is_parameterized(sg)}', rep)
         res = cirq.ParamResolver(dict(entries))
@@ -1356,6 +1356,7 @@ def circuit_stream(ctx, cirq, n):
             check_circuit_resolution(ctx, cirq, case, exprs)
         except Exception as ex:
             explain_exception(ctx, cirq, 'circuit', case['specs'], case['entries'], ex, circuit_replay_record(case))
+    ctx.cov.setdefault('distribution', {})['circuit_unitary'] = dist
 
 
 def circuit_replay_record(case):
@@ -1420,6 +1421,8 @@ def blame_kind(cirq, s, kind, res, q, outer=None):
             for op in top.untagged.mapped_circuit(deep=True).all_operations():
                 if cirq.is_parameterized(op):
                     g = op.gate if op.gate is not None else op.untagged
+                    while getattr(g, 'sub_gate', None) is not None:      # controlled / parallel wrappers: blame the wrapped gate
+                        g = g.sub_gate
                     if not cirq.parameter_names(op):
                         still = cirq.is_parameterized(cirq.resolve_parameters(op, {'c10_probe': 1.0}))
                         return 'sub:parameter_names:' + type(g).__name__ if still else 'sub:symbolic-constant'
@@ -1496,7 +1499,10 @@ def simulate_case(ctx, cirq, sim, rng, cs, specs, prefix, q, syms, t):
         for j, (r, pr) in enumerate(zip(results, sweep)):
             ents = dict_items(pr)
             # reference: numbers substituted by sympy into every parameter, then simulated
-            twin = twin_circuit(cirq, prefix, specs, q, ents)
+            try:
+                twin = twin_circuit(cirq, prefix, specs, q, ents)
+            except ValueError:
+                continue                         # ordinary algebra gives no real parameter at this point
             want = sim.simulate(twin, qubit_order=q).final_state_vector
             single = sim.simulate(cs, pr, qubit_order=q).final_state_vector
             if r.params != pr or not mats_close(r.final_state_vector, want, 1e-6) or not mats_close(single, want, 1e-6):
@@ -1617,8 +1623,11 @@ def flatten_stream(ctx, cirq, n):
                 for pr, pr2 in zip(sweep, sw2):
                     if bad:
                         break
+                    try:
+                        twin = twin_circuit(cirq, [], case['specs'], q, dict_items(pr))
+                    except ValueError:
+                        continue                 # ordinary algebra gives no real parameter at this point
                     a = cirq.resolve_parameters(cf2, pr2)
-                    twin = twin_circuit(cirq, [], case['specs'], q, dict_items(pr))
                     if cirq.is_parameterized(a):
                         bad = f'flatten_with_sweep: resolved flattened circuit is still parameterized by {sorted(cirq.parameter_names(a))}'
                     elif not ops_match(cirq, a, twin, q):
